@@ -102,8 +102,10 @@ def make_scheduler(kw):
             args["reduction_factor"] = float(Fraction(kw["reduction_factor"]))
         else:
             args["rung_increment"] = kw["rung_increment"]
-    if kw["type"] == "cost_promotion":
+    if kw["type"] == "cost_promotion" or kw.get("cost"):
         args["cost_attr"] = COST
+    if "num_threshold_candidates" in kw:
+        args["rung_system_kwargs"] = {"num_threshold_candidates": kw["num_threshold_candidates"]}
     args["searcher"] = StubSearcher(cs, METRIC, kw["mode"])
     sch = HyperbandScheduler(cs, **args)
     sch._initialize_searcher()
@@ -127,9 +129,19 @@ def snapshot(sch):
          for k, v in getattr(rs, "_running", {}).items()]
         for rs in t._rung_systems
     ]
+    thresholds = [
+        [[int(k), frac_str(v)] for k, v in rs._decider._thresholds.items()] if hasattr(rs, "_decider") else []
+        for rs in t._rung_systems
+    ]
+    pasha = [
+        [int(rs.current_rung_idx), int(rs.current_max_t)] if hasattr(rs, "current_rung_idx") else [0, 0]
+        for rs in t._rung_systems
+    ]
+    cost_offset = [[int(k), frac_str(v)] for k, v in sch._cost_offset.items()]
     task_info = [[int(k), int(v)] for k, v in t._task_info.items()]
     active = [[int(k), v.trial_decision, int(v.bracket)] for k, v in sch._active_trials.items()]
-    return {"rungs": rungs, "running": running, "task_info": task_info, "active": active}
+    return {"rungs": rungs, "running": running, "task_info": task_info, "active": active,
+            "thresholds": thresholds, "pasha": pasha, "cost_offset": cost_offset}
 
 
 def model_view(out):
@@ -145,6 +157,8 @@ def errname(e):
         return "assertion"
     if isinstance(e, KeyError):
         return "key-error"
+    if isinstance(e, IndexError):
+        return "index-error"
     return "other:" + type(e).__name__
 
 
@@ -152,7 +166,7 @@ class Worker:
     """scripted training job of one trial"""
 
     def __init__(self, tid, next_r, upto):
-        self.tid, self.next_r, self.upto = tid, next_r, upto
+        self.tid, self.next_r, self.upto, self.start_r = tid, next_r, upto, next_r
 
 
 def metric_value(rng_seed, tid, r, style):
@@ -161,6 +175,16 @@ def metric_value(rng_seed, tid, r, style):
         return rr.randrange(0, 4) / 4.0
     if style == "const":
         return 0.5
+    if style.startswith("near"):
+        # near-ties: differences far above round-off (2^-40 relative) but small
+        delta = {"near4": 1e-4, "near6": 1e-6, "near8": 1e-8, "near10": 1e-10}[style]
+        return 0.75 + rr.randrange(-8, 9) * delta
+    if style == "tiny":
+        return metric_value(rng_seed, tid, r, "general") * 2.0 ** -30
+    if style == "huge":
+        return metric_value(rng_seed, tid, r, "general") * 2.0 ** 40
+    if style == "neg":
+        return metric_value(rng_seed, tid, r, "general") - 0.5
     lat = random.Random(rng_seed * 31 + tid).randrange(0, 64)
     return (lat + rr.randrange(-16, 17) * (1.0 / (1 + r))) / 64.0 + (tid % 7) / 8192.0
 
@@ -193,6 +217,12 @@ def run_scenario(spec):
         v = sign * metric_value(spec["seed"], tid, r, style)
         res = {METRIC: v, RES: r}
         inp = {"op": "result", "trial": tid, "resource": r, "metric": frac_str(v)}
+        if ctor.get("cost") or ctor["type"] == "cost_promotion":
+            w = workers.get(tid)
+            steps = (r - w.start_r + 1) if w is not None else 1
+            c = max(steps, 1) * (1 + (tid * 7 + spec["seed"]) % 5) / 8.0
+            res[COST] = c
+            inp["cost"] = frac_str(c)
         before = snapshot(sch)
         prev_dec = sch._active_trials[str(tid)].trial_decision if str(tid) in sch._active_trials else None
         try:
@@ -202,11 +232,16 @@ def run_scenario(spec):
             events.append({"ev": "result-error", "trial": tid, "resource": r, "err": errname(e)})
             return None
         inp["hint"] = d == SchedulerDecision.CONTINUE
+        if ctor["type"] == "pasha":
+            b = int(sch._active_trials[str(tid)].bracket)
+            rsys = sch.terminator._rung_systems[b if ctor.get("rung_system_per_bracket") else 0]
+            inp["eps"] = frac_str(float(rsys.epsilon))
         out = {"decision": d, "calls": searcher.take()}
         out.update(snapshot(sch))
         lines.append((inp, out))
         events.append({"ev": "result", "trial": tid, "resource": r, "metric": v, "decision": d,
-                       "rungs_after": out["rungs"], "rungs_before": before["rungs"], "prev_decision": prev_dec, "bracket": int(sch._active_trials[str(tid)].bracket)})
+                       "rungs_after": out["rungs"], "rungs_before": before["rungs"], "prev_decision": prev_dec,
+                       "pasha_after": out["pasha"], "pasha_before": before["pasha"], "bracket": int(sch._active_trials[str(tid)].bracket)})
         return d
 
     while n_events < spec["max_events"]:
@@ -226,6 +261,7 @@ def run_scenario(spec):
         a = rng.choice(acts)
         if a == "suggest":
             n0 = len(rs.drawn)
+            before = snapshot(sch)
             try:
                 sg = sch.suggest(next_id)
             except Exception as e:  # noqa
@@ -255,7 +291,8 @@ def run_scenario(spec):
                     out["suggestion"]["milestone"] = ms
                 out.update(snapshot(sch))
                 lines.append((inp, out))
-                events.append({"ev": "start", "trial": tid, "bracket": bracket, "milestone": ms})
+                events.append({"ev": "start", "trial": tid, "bracket": bracket, "milestone": ms, "before": before,
+                               "drawn_bracket": br})
             else:
                 tid = int(sg.checkpoint_trial_id)
                 info = None
@@ -273,6 +310,7 @@ def run_scenario(spec):
                 else:
                     cfg_ms = None
                 events.append({"ev": "resume", "trial": tid, "from": frm, "milestone": ms, "cfg_milestone": cfg_ms,
+                               "before": before, "drawn_bracket": br, "after": out,
                                "was_dead": tid in dead, "running": tid in workers})
                 upto = cfg_ms if cfg_ms is not None else max_t
                 start_r = frm + 1 if spec.get("checkpointing", True) else 1
